@@ -37,7 +37,7 @@ type c04Snap struct {
 }
 
 type c04Op struct {
-	kind string // set del meta past
+	kind string // set del zero meta past
 	key  string
 }
 
@@ -280,7 +280,7 @@ func init() {
 	registerEnum("c04ryow", func(e *enumCtx) {
 		maxLen := e.j.Int("len", 3)
 		var ops []c04Op
-		for _, kind := range []string{"set", "del", "meta", "past"} {
+		for _, kind := range []string{"set", "del", "zero", "meta", "past"} {
 			for _, k := range c04Keys {
 				ops = append(ops, c04Op{kind, k})
 			}
@@ -333,6 +333,9 @@ func init() {
 						switch op.kind {
 						case "set":
 							err = txn.Set([]byte(op.key), []byte(p.val))
+						case "zero": // a Set with an empty value is a live entry, not a delete
+							p.val = ""
+							err = txn.Set([]byte(op.key), nil)
 						case "del":
 							p = c04Pending{del: true}
 							err = txn.Delete([]byte(op.key))
